@@ -183,7 +183,7 @@ fn main() {
                 }
                 let uses_handle = |p: &Vec<VOp>| p.iter().any(|o| matches!(o, VOp::HandleUpd(_)));
                 let st = if (uses_handle(&progs[i]) || uses_handle(&progs[j])) && st == Start::Empty { Start::HasA } else { st };
-                drivers.push(VecDriver { flavour: f, start: st, programs: instantiate(&[progs[i].clone(), progs[j].clone()]) });
+                drivers.push(VecDriver { flavour: f, start: st, programs: instantiate(&[progs[i].clone(), progs[j].clone()]), ballast: 0 });
             }
         }
         // all unordered triples of 1-operation programs (e.g. creator | creator | remover of another key)
@@ -196,7 +196,7 @@ fn main() {
                             if !thorough && st == Start::Empty && ![i, j, k].iter().any(|x| *x <= 1) {
                                 continue;
                             }
-                            drivers.push(VecDriver { flavour: f, start: st, programs: instantiate(&[vec![one[i].clone()], vec![one[j].clone()], vec![one[k].clone()]]) });
+                            drivers.push(VecDriver { flavour: f, start: st, programs: instantiate(&[vec![one[i].clone()], vec![one[j].clone()], vec![one[k].clone()]]), ballast: 0 });
                         }
                     }
                 }
@@ -213,11 +213,44 @@ fn main() {
                 vec![w(0), w(1), vec![VOp::Collect]],
             ];
             for p in three {
-                drivers.push(VecDriver { flavour: f, start: st, programs: instantiate(&p) });
+                drivers.push(VecDriver { flavour: f, start: st, programs: instantiate(&p), ballast: 0 });
             }
         }
     }
-    let nd = drivers.len();
+    // vectors that already hold many children (sizes around powers of two, where a table would grow or a side table
+    // would be merged): a creator against a collector / a toucher of an old child / a remover
+    let sizes: &[usize] = if thorough { &[3, 4, 7, 8, 15, 16, 31, 32, 63, 64] } else { &[7, 8, 15, 16, 31, 32] };
+    let mut big = vec![];
+    for &n in sizes {
+        for (fi, &f) in flavours.iter().enumerate() {
+            if !thorough && fi == 2 {
+                continue;
+            }
+            let w = |k| VOp::W(k, 1.0);
+            let shapes: Vec<(Start, Vec<Vec<VOp>>)> = vec![
+                (Start::Empty, vec![vec![w(0)], vec![VOp::Collect]]),
+                (Start::Empty, vec![vec![w(0)], vec![VOp::BTouch(0), VOp::Collect]]),
+                (Start::HasA, vec![vec![w(1), VOp::Collect], vec![VOp::BTouch(n - 1)]]),
+                (Start::HasA, vec![vec![w(1)], vec![VOp::Remove(0), VOp::Collect]]),
+                (Start::RemovedA, vec![vec![w(0)], vec![w(1), VOp::Collect]]),
+            ];
+            for (st, p) in shapes {
+                big.push(VecDriver { flavour: f, start: st, programs: instantiate(&p), ballast: n });
+            }
+        }
+    }
+    // a collector overtaken by a run of structural operations (create, remove, create again) followed by an update of
+    // an old child through a kept handle
+    for &f in &flavours {
+        let p = vec![vec![VOp::Collect], vec![VOp::W(1, 1.0), VOp::Remove(1), VOp::W(1, 1.0), VOp::HandleUpd(1.0)]];
+        big.push(VecDriver { flavour: f, start: Start::HasA, programs: instantiate(&p), ballast: 0 });
+        if thorough {
+            let p = vec![vec![VOp::Collect], vec![VOp::W(1, 1.0), VOp::Reset, VOp::W(0, 1.0), VOp::Remove(0), VOp::W(1, 1.0), VOp::HandleUpd(1.0)]];
+            big.push(VecDriver { flavour: f, start: Start::HasA, programs: instantiate(&p), ballast: 0 });
+        }
+    }
+    let nbig = big.len();
+    let nd = drivers.len() + nbig;
     rep.rule = format!("(E1) stateless exploration (vsched, Mode U with sleep sets, fallback preemption bound) of all interleavings at lock/atomic operations and call boundaries of: for 3 vector flavours (IntCounterVec list form, CounterVec map form, HistogramVec), all unordered pairs of programs of <=2 operations over {:?} (quick: pairs of total length <=3; reduced alphabet for the 2nd and 3rd flavour; 3-thread HistogramVec drivers preemption-bounded) all unordered triples of 1-operation programs over {{W(a),W(b),remove(a),remove(b),reset,collect}} (quick: IntCounterVec only) and five 3-thread drivers with 2-call programs (creator|creator|collector, creator|remover|collector, creator|reset|creator, creator|remover|creator, creator(a)|creator(b)|collector), from 3 start states (empty / holding key a with a kept handle / a created-and-removed with a kept handle); oracle: Wing-Gong linearizability against a map key->child where collected child values are decoded (distinct powers of two) and judged per child with interval semantics, so they show which child object every handle pointed to. (E2) all sequential histories up to depth {} over {{W(a),W(b),get(a),remove(a),remove(b),reset,update through the last handle, update through the kept handle}} for each flavour and start state, collect compared with the reference after every step. distinct = distinct (results, real-time relation) outcomes + unique sequential states", alpha, if thorough { 6 } else { 5 });
     rep.bounds = json!({"threads": "2-3", "ops_per_thread": 2, "keys": KEYS, "e1_drivers": nd, "seq_depth": if thorough {6} else {5}});
     let cap = if thorough { 1_000_000 } else { 300_000 };
@@ -225,7 +258,7 @@ fn main() {
     // explored with a bound of 2 preemptions instead of unboundedly
     // heavy = 3-thread drivers on HistogramVec and (quick only) the 1-call triples: preemption-bounded (quick 2, thorough 3)
     let (heavy, light): (Vec<VecDriver>, Vec<VecDriver>) = drivers.into_iter().partition(|d| d.programs.len() == 3 && (d.flavour == VFlavour::HistogramList || (!thorough && d.programs.iter().all(|p| p.len() == 1))));
-    let cl = |d: &VecDriver| VecDriver { flavour: d.flavour, start: d.start, programs: d.programs.clone() };
+    let cl = |d: &VecDriver| VecDriver { flavour: d.flavour, start: d.start, programs: d.programs.clone(), ballast: d.ballast };
     // deviation budget (one spurious weak-CAS failure): thorough tier, two-thread drivers with at most 3 calls
     let (dev, nodev): (Vec<VecDriver>, Vec<VecDriver>) = light.into_iter().partition(|d| thorough && d.programs.len() == 2 && d.programs.iter().map(|p| expand(p).len()).sum::<usize>() <= 3);
     SPURIOUS_BUDGET.store(1, std::sync::atomic::Ordering::Relaxed);
@@ -233,6 +266,10 @@ fn main() {
     SPURIOUS_BUDGET.store(0, std::sync::atomic::Ordering::Relaxed);
     results.extend(explore_many(nodev, Mode::U, cap, 3, 16, cl));
     results.extend(explore_many(heavy, Mode::B(if thorough { 3 } else { 2 }), cap, 2, 16, cl));
+    let t_big = std::time::Instant::now();
+    let big_results = explore_many(big, Mode::U, cap, 3, 16, cl);
+    eprintln!("large-vector drivers: {} drivers, {} executions, {:.1}s", nbig, big_results.iter().map(|r| r.2.executions).sum::<u64>(), t_big.elapsed().as_secs_f64());
+    results.extend(big_results);
     let summary = fold_results(&mut rep, results);
     rep.extra.insert("modes".into(), summary);
     let e1_execs = rep.evaluations;
